@@ -19,21 +19,27 @@ import (
 func strAttr(v dg.Validation) dg.Attr { return dg.Attr{T: dg.Prim("String"), V: &v} }
 func intAttr(v dg.Validation) dg.Attr { return dg.Attr{T: dg.Prim("Int"), V: &v} }
 
-// holderMethod: payload {one: T, arr: [T], mp: {string: T}, twin: Plain0} (nothing required).
+// holderMethod: payload {one: T, arr: [T], arr2: [[T]], mp: {string: T}, mparr: {string: [T]}, twin: Plain0}
+// (nothing required).
 func holderMethod(name, typ string) *dg.Method {
 	p := dg.A(dg.Obj(
 		dg.F("one", dg.Ref(typ)),
 		dg.F("arr", dg.ArrayOf(dg.A(dg.Ref(typ)))),
 		dg.F("arr2", dg.ArrayOf(dg.A(dg.ArrayOf(dg.A(dg.Ref(typ)))))),
 		dg.F("mp", dg.MapOf(dg.A(dg.Prim("String")), dg.A(dg.Ref(typ)))),
+		dg.F("mparr", dg.MapOf(dg.A(dg.Prim("String")), dg.A(dg.ArrayOf(dg.A(dg.Ref(typ)))))),
 		dg.F("twin", dg.Ref("Plain0"))))
 	return method(name, "POST", "/sole/"+name, &p, nil)
 }
 
-// holderDeep: the same plus three array levels (types whose only validation is `required`
-// on primitive attributes).
+// holderDeep: the same plus map of arrays / map of maps placed first, three array levels and
+// an array of maps (types whose only validation is `required` on primitive attributes).
 func holderDeep(name, typ string) *dg.Method {
 	m := holderMethod(name, typ)
+	// met FIRST below a map of arrays / a map of maps, then in every other position
+	m.Payload.T.Attrs = append([]*dg.Field{
+		dg.F("mparr0", dg.MapOf(dg.A(dg.Prim("String")), dg.A(dg.ArrayOf(dg.A(dg.Ref(typ)))))),
+		dg.F("mpmp0", dg.MapOf(dg.A(dg.Prim("String")), dg.A(dg.MapOf(dg.A(dg.Prim("String")), dg.A(dg.Ref(typ))))))}, m.Payload.T.Attrs...)
 	m.Payload.T.Attrs = append(m.Payload.T.Attrs,
 		dg.F("arr3", dg.ArrayOf(dg.A(dg.ArrayOf(dg.A(dg.ArrayOf(dg.A(dg.Ref(typ)))))))),
 		dg.F("arrmp", dg.ArrayOf(dg.A(dg.MapOf(dg.A(dg.Prim("String")), dg.A(dg.Ref(typ)))))))
@@ -139,6 +145,12 @@ func soleRandomDesign(rng *vh.RNG, idx int) *dg.Design {
 		cur := leaf
 		prim := true
 		chain := ""
+		if rng.Intn(3) == 0 {
+			// the sole validation is `required` on primitive attributes of a user type
+			cur = dg.A(dg.Ref(newType(dg.Obj(dg.Req("a", dg.Prim("String")), dg.Req("w", dg.Prim("Int")), dg.F("o", dg.Prim("Boolean"))))))
+			prim, isStr = false, false
+			chain = "reqonly>"
+		}
 		n := 1 + rng.Intn(3)
 		for k := 0; k < n; k++ {
 			switch w := rng.Intn(6); {
